@@ -515,6 +515,7 @@ class Group(_Handle):
                 raise ValueError("Unable to create dataset (negative extent)")
         node = DNode(shape, dtype, maxshape, kw.get("compression"))
         if _is_npc(dtype):
+            _npc_check_storable(dtype)
             if len(shape) != 1:
                 raise TypeError("fakeh5: tables are 1-d")
             node.np = _npc_zeros(shape[0], dtype)
@@ -537,6 +538,15 @@ class Group(_Handle):
             raise TypeError("fakeh5: parent of a new dataset is not a group")
         if leaf in parent.node.links:
             raise ValueError("Unable to create dataset (name already exists)")
+        if isinstance(data, _np.ndarray) and _is_npc(data.dtype) and data.ndim == 1 and \
+                (dtype is None or _is_npc(dtype)):
+            # a table made from a structured array: contiguous (fixed size) unless chunks / maxshape say otherwise
+            dt = data.dtype if dtype is None else dtype
+            node = DNode(data.shape, dt, maxshape if maxshape is not None else tuple(data.shape), kw.get("compression"))
+            node.np = _npc_in(data, dt, None)
+            node.chunked = bool(chunks) or (maxshape is not None and tuple(maxshape) != tuple(data.shape))
+            parent.node.links[leaf] = node
+            return Dataset._make(self.file, node, _join(parent.name, leaf))
         if isinstance(dtype, _DT):
             dtype = dtype.dt
         if dtype is None and isinstance(data, _FArr):
@@ -900,6 +910,15 @@ def _npc_strfields(dtype):
     return [n for n in dtype.names if h5py.check_string_dtype(dtype.fields[n][0]) is not None]
 
 
+def _npc_check_storable(dtype):
+    """a plain Python-object column has no HDF5 equivalent (only variable-length text has)"""
+    import h5py
+    for n in dtype.names:
+        ft = dtype.fields[n][0]
+        if ft.kind == "O" and h5py.check_string_dtype(ft) is None:
+            raise TypeError("Object dtype dtype('O') has no native HDF5 equivalent")
+
+
 def _npc_zeros(n, dtype):
     arr = _np.zeros(int(n), dtype=dtype)
     for fld in _npc_strfields(dtype):
@@ -1062,9 +1081,16 @@ class Dataset(_Handle):
         old = self.node.shape
         self.node.shape = shape
         v = self.node.value
-        if v is not None and len(shape) == 1 and _concrete_shape(shape) and _concrete_shape(old):
-            n = shape[0]
-            self.node.value = (v + [0] * n)[:n]
+        if v is not None and _concrete_shape(shape) and _concrete_shape(old):
+            # n-d: every axis is cut or padded with the fill value, the rest keeps its place
+            def fit(x, d):
+                if d == len(shape):
+                    return x
+                rows = [fit(r, d + 1) for r in x[:shape[d]]]
+                while len(rows) < shape[d]:
+                    rows.append(_fill(shape[d + 1:]))
+                return rows
+            self.node.value = fit(v, 0)
         elif v is not None:
             self.node.value = None
 
@@ -1800,11 +1826,17 @@ def _script_tables(h5, path):
         u = f["u"]
         obs.append(("assigned", ex(lambda: u[:]), u.shape, u.maxshape, ex(lambda: u.resize((3,)))))
         obs.append(("assign-dup", ex(lambda: f.__setitem__("u", _np.zeros(1, dtype=dt)))))
+        v = f.create_dataset("v", data=_np.array([("a", 1, 1.5, True)], dtype=dt))
+        w = f.create_dataset("w", data=_np.array([("a", 1, 1.5, True)], dtype=dt), maxshape=(None,))
+        obs.append(("created-from-array", ex(lambda: v[:]), v.maxshape, ex(lambda: v.resize((2,))), w.maxshape,
+                    ex(lambda: w.resize((2,))), w.shape, ex(lambda: f.create_dataset("v", data=_np.zeros(1, dtype=dt)))))
         obs.append(("require-existing", ex(lambda: f.require_dataset("u", shape=(2,), dtype=dt, chunks=True,
                                                                      maxshape=(None,)).shape),
                     ex(lambda: f.require_dataset("u", shape=(3,), dtype=dt).shape)))
         del f["u"]
         obs.append(("deleted", "u" in f))
+        obs.append(("object-column", ex(lambda: f.require_dataset("o", shape=(1,), dtype=_np.dtype(
+            [("a", _np.int64), ("b", object)]), chunks=True, maxshape=(None,)).shape), "o" in f))
         e = f.require_dataset("e", shape=(0,), dtype=dt, chunks=True, maxshape=(None,))
         obs.append(("empty", ex(lambda: e[:]), ex(lambda: e[0]), ex(lambda: e[[0]]), ex(lambda: e[[]]), len(e)))
         # attrs.modify keeps the stored type
@@ -1830,6 +1862,10 @@ def _script_tables(h5, path):
                     (Ellipsis, slice(None, None, 2)), (Ellipsis, 0, Ellipsis), (0, 0, 0), (slice(4, 0), 1),
                     (1, Ellipsis, slice(1, None, 2)), (slice(None, None, 5), slice(-1, None)), (-1, -1), (3, 0)):
             obs.append(("sel", repr(key), ex(lambda: a[key])))
+        # n-d resize keeps every element in its place, new cells are zero
+        obs.append(("resize-2d-grow", ex(lambda: a.resize((4, 5))), a.shape, ex(lambda: a[...])))
+        obs.append(("resize-2d-shrink", ex(lambda: a.resize((2, 3))), a.shape, ex(lambda: a[...])))
+        obs.append(("resize-2d-back", ex(lambda: a.resize((3, 4))), a.shape, ex(lambda: a[...])))
     return obs
 
 
